@@ -422,8 +422,19 @@ def check(prog: list, ext: float | None, res: dict, ctx=None) -> list[tuple[str,
                 for n in e["cc"]:
                     if n in main_names and n not in first_seen and active(n, e["i"]):
                         first_seen[n] = e
-            if not first_seen:
+            # the scope that swallowed a CancelledError after the request (if any) and when it was cancelled itself
+            swallower = next((e for e in tr[ext_i:] if e["k"] == "scope-exit" and e.get("task") == "main" and e["exc_in"] == "CancelledError" and e["swallowed"]), None)
+            late = None
+            if swallower is not None and swallower["scope"] not in first_seen:
+                # cancelled only after the delivery point, i.e. while the foreign CancelledError was already unwinding through it
+                for e in tr[deliver_i : swallower["i"] + 1]:
+                    if swallower["scope"] in e["cc"]:
+                        late = e
+                        break
+            if not first_seen and late is None:
                 key = "I5-external-cancel-swallowed:other"
+            elif not first_seen:
+                key = "I5-external-cancel-swallowed:scope-cancelled-while-unwinding"
             elif any(abs(e["t"] - ext_ev["t"]) <= EPS and n not in before for n, e in first_seen.items()) or any(
                 si["cancel_t"] is not None and abs(si["cancel_t"] - ext_ev["t"]) <= EPS for n, si in scope_info.items() if n in first_seen
             ):
